@@ -60,7 +60,7 @@ try:
         r["suite_missing"] = suite()
         r["checks"] = {}
         for c in checks:
-            p = subprocess.run([str(V / "check"), c], cwd=V, capture_output=True, text=True, env={**os.environ, "MIDGARD_REPO": str(wt)})
+            p = subprocess.run([str(V / "check"), c], cwd=V, capture_output=True, text=True, env={**os.environ, "MIDGARD_REPO": str(wt), "VERIF_EVIDENCE_DIR": "/tmp/sv-evidence"})
             lines = [l for l in p.stdout.splitlines() if l.startswith("VIOLATION") or l.startswith("  what:")]
             r["checks"][c] = {"exit": p.returncode, "lines": lines[:6]}
         results[k] = r
